@@ -293,3 +293,18 @@ V('C14-reintroduce-D16', ['C14', 'C01', 'C02'], BL, "        inner_offsets = buf
   "        start = buffer_offsets[0][0]\n        stop = buffer_offsets[0][-1]\n        for offsets in buffer_offsets[1:-1]:\n            start = offsets[start]\n            stop = offsets[stop]\n        return buffer_offsets[-1][start:stop + 1]", rule=None, rules={'C14': 'C14', 'C01': 'C01', 'C02': 'C02'})
 V('C14-inner-offsets-gather', ['C14', 'C02'], BL, "            inner_offsets = offsets[inner_offsets[0]:inner_offsets[-1] + 1]", "            inner_offsets = offsets[inner_offsets]", rule=None, rules={'C14': 'C14.c', 'C02': 'C02'})
 V('C14-silent-range-minus-5', 'C14', ME, "        for k in range(start, stop - 4, 2):", "        for k in range(start, stop - 5, 2):", expect='silent')
+
+# ------------------------------------------------------------------------------------------------ C15
+PGY = 'spatialpandas/geometry/polygon.py'
+OR = 'spatialpandas/geometry/_algorithms/orientation.py'
+V('C15-no-copy', ['C15'], PGY, "        buffer_values = self.buffer_values.copy()\n        poly_offsets, ring_offsets = self.buffer_offsets", "        buffer_values = self.buffer_values\n        poly_offsets, ring_offsets = self.buffer_offsets", rule='C15.a')
+V('C15-mask-dropped', ['C15', 'C17'], PGY, "            pa.array(poly_offsets, mask=missing), pa_rings,", "            pa.array(poly_offsets), pa_rings,", rule=None, rules={'C15': 'C15.b', 'C17': 'C17'})
+V('C15-offsets-swapped', 'C15', PGY, "        orient_polygons(buffer_values, poly_offsets, ring_offsets)", "        orient_polygons(buffer_values, ring_offsets, poly_offsets)", rule='C15.c')
+V('C15-rebuild-from-original-values', 'C15', PGY, "            pa.array(ring_offsets), pa.array(buffer_values)\n        )\n        pa_polys = pa.ListArray.from_arrays(\n            pa.array(poly_offsets, mask=missing), pa_rings,", "            pa.array(ring_offsets), pa.array(self.buffer_values)\n        )\n        pa_polys = pa.ListArray.from_arrays(\n            pa.array(poly_offsets, mask=missing), pa_rings,", rule='C15.b')
+V('C15-multipolygon-kernel-levels', 'C15', MP, "        orient_polygons(buffer_values, poly_offsets, ring_offsets)", "        orient_polygons(buffer_values, multipoly_offsets, ring_offsets)", rule='C15.c')
+V('C15-shell-is-last-ring', 'C15', OR, "    expected_ccw[polygon_offsets[:-1]] = True", "    expected_ccw[polygon_offsets[1:] - 1] = True", rule='C15.c')
+V('C15-shell-clamped', 'C15', OR, "    expected_ccw[polygon_offsets[:-1]] = True", "    expected_ccw[np.minimum(polygon_offsets[:-1], num_rings - 1)] = True", rule='C15.c')
+V('C15-flip-only-x', 'C15', OR, "        values[flip_start + 1:flip_stop:2] = ys[::-1]\n", "", rule='C15.c')
+V('C15-flip-y-range-shifted', 'C15', OR, "        values[flip_start + 1:flip_stop:2] = ys[::-1]", "        values[flip_start + 1:flip_stop - 2:2] = ys[::-1]", rule='C15.c', analysis_error_ok=True)
+V('C15-flip-x-gets-y', 'C15', OR, "        values[flip_start:flip_stop:2] = xs[::-1]", "        values[flip_start:flip_stop:2] = ys[::-1]", rule='C15.c')
+V('C15-silent-rename-marker', 'C15', OR, "    expected_ccw[polygon_offsets[:-1]] = True", "    first_rings = polygon_offsets[:-1]\n    expected_ccw[first_rings] = True", expect='silent')
